@@ -34,8 +34,17 @@ PROPS = {
     "C03": dict(SHIELD, lean=[]),
     "C04": dict(SHIELD, lean=[]),
     "C05": dict(SHIELD, lean=[]),
-    "C06": dict(SHIELD, lean=[]),
+    "C06": dict(SHIELD, lean=["Shentu.Props.C06"], assumptions=SHIELD["assumptions"] + [
+        "the converse (a funded purchase meeting the conditions is accepted) is proved for purchases whose fee or stake does not truncate to zero (amount x rate >= 1 unit); with the default minimum purchase of 50 CTK this always holds; below it the module answers ErrNoShield"]),
     "C07": dict(SHIELD, lean=[]),
+    "C09": {
+        "lean": ["Shentu.Props.C09"],
+        "engines": [chain("staking", 128, 1280, ops=150, tops=250), chain("shield", 32, 320, ops=160)],
+        "trusted": ["modelled, not verified: the Cosmos SDK staking keeper (power index, unbonding queues, slashing), baseapp, Tendermint; the model is the specification of what consensus must see, compared on every block with the updates the real application returns from EndBlock",
+                    "the consensus view is accumulated by the harness from the EndBlock responses, starting from the bonded validators of genesis"],
+        "assumptions": ["consensus public keys are unique among validators (refused otherwise by the SDK)", "power reduction 10^6 (the default)", "a tie in power exactly at the last seat is not decided by the monitor (counted as sit.c09.tie_at_the_cut)",
+                        "genesis does not bond more validators than MaxValidators", "claim locks and payouts may postpone or shrink unbonding entries (shield profile): only 'never earlier' is checked there"],
+    },
     "C16": {
         "lean": ["Shentu.Props.C16"],
         "drivers": ["vmdriver"],
